@@ -63,3 +63,23 @@ Definition C04_model_statement : Prop :=
 Theorem C04_model_holds : C04_model_statement.
 Proof. exact (conj mesh_links_frame ni_xy_frame). Qed.
 Print Assumptions C04_model_holds.
+
+(* Part 3: the frame of an auto-connected router array at the level of compiled identities and port slots, for
+   every XY description: for every mesh link e of the array there are compiled routers r (its source) and r'
+   (its destination) such that r carries identity (i,j), r' carries identity (i,j) + step(k), k is the compass
+   direction the link names at its source (0..3), and output port k of r holds exactly this link.  Together
+   with C05_model (input port k holds the reverse link) and Part 2 (b) this is the frame statement (i) of C04
+   as a theorem about the generator model instead of a check on one output. *)
+From FV Require Import BuildProofs FrameProofs.
+Theorem C04_model_mesh_frame :
+  forall d g c rd m n e,
+    build d = Ok g -> compile d g = Ok c -> d_algo d = XY ->
+    In rd (d_rts d) -> rt_array rd = Some [m; n] -> rt_tree rd = None -> rt_auto rd = true ->
+    In e (flat_map (array_links (rt_name rd)) (grid_idx m n)) ->
+    exists r r' i j k dx dy,
+      In r (c_rts c) /\ In r' (c_rts c) /\ cr_name r = e_src e /\ cr_name r' = e_dst e /\
+      e_src_dir e = Some k /\ 0 <= k < 4 /\ to_coords k = Ok (dx, dy) /\
+      cr_id r = Some (IdXY i j 0) /\ cr_id r' = Some (IdXY (i + dx) (j + dy) 0) /\
+      nth_error (cr_out r) (Z.to_nat k) = Some (Some (e_src e, e_dst e)).
+Proof. exact mesh_frame. Qed.
+Print Assumptions C04_model_mesh_frame.
